@@ -1,7 +1,10 @@
 import EpModel.Lemmas.Io
+import EpModel.Lemmas.IoSkip
 import EpModel.Model.IoBuild
+import EpModel.Model.BuilderIo
 import EpModel.Props.C08Link
 import EpModel.Props.C08Net
+import EpModel.Props.C10
 /-
   C16 — I/O faults and short buffers surface as errors without partial garbage.
 
@@ -26,6 +29,14 @@ import EpModel.Props.C08Net
                         result of the complete read
     limited_reader      for EVERY adaptive sequence of read_exact / start_layer calls: no arithmetic
                         underflow, read_len ≤ max_len, bytes pulled ≤ the initial max_len
+    skip_header_extension / skip_all_*   (EpModel/Model/IoSkip.lean: `Ipv6Header::skip_header_extension`,
+                        `skip_all_header_extensions` on a Read + Seek reader)  Ok iff every byte of the
+                        skipped header(s) lies in front of the failure position / end of the data; then the
+                        reader stands exactly behind them; otherwise the reader's own error
+    gbuilder_*          over the GENERAL builder model EpModel/Model/Builder.lean (every builder path,
+                        C10): Space(required) exactly for cap < size with required = size = length of the
+                        complete packet; `write` against a writer failing at byte k, for every way of
+                        cutting the output into write_all calls
 -/
 namespace EpModel.Props.C16
 open EpModel EpModel.Io EpModel.Lemmas.Io
@@ -563,6 +574,209 @@ theorem limited_len_error (l : Limited) (n : Nat) (hr : l.readLen ≤ l.maxLen) 
     rcases readExact_cases l.inner n with ⟨he, _⟩ | ⟨_, _, he⟩ | ⟨_, _, he⟩ <;>
       rw [he] at h <;> simp at h
 
+/-! ## Read + Seek skipping of IPv6 extension headers -/
+
+section skip
+open EpModel.Io.Skip EpModel.Lemmas.IoSkip
+
+/-- **`Ipv6Header::skip_header_extension`** on a reader that fails at byte `k` (any data, any
+    start position, any next header):
+    * a next header that is no skippable extension header: `Ok(next_header)`, nothing is read;
+    * a skippable one (`kindOf nh = some kind`): if the complete header — 8 bytes for a fragment
+      header, `(len + 2) * 4` for an authentication header, `(len + 1) * 8` otherwise, `len` the
+      second byte — lies inside the bytes the reader can hand out, the result is `Ok(first byte)`
+      and the reader stands exactly behind the header; if ANY byte of it is missing, the result is
+      the reader's error (the injected one when the reader fails inside the data, `UnexpectedEof`
+      when the data ends) — never `Ok`. -/
+theorem skip_header_extension (r : Reader) (nh : Nat) :
+    (¬ isSkippable nh → skipHeaderExtension r nh = (r, .ok nh)) ∧
+    (∀ kind, kindOf nh = some kind →
+      (r.pos + hdrLen kind r.data r.pos ≤ r.limit →
+        skipHeaderExtension r nh =
+          ({ data := r.data, pos := r.pos + hdrLen kind r.data r.pos, failAt := r.failAt },
+           .ok (bAt r.data r.pos))) ∧
+      (r.limit < r.pos + hdrLen kind r.data r.pos →
+        (skipHeaderExtension r nh).2 = .error r.dryError)) := by
+  refine ⟨not_skippable r nh, fun kind hk => ⟨skip_ok r nh kind hk, fun h => ?_⟩⟩
+  exact (skip_err r nh kind hk (by omega)).1
+
+/-- the same as an equivalence, for the reader of the property (start of the data, fails at byte
+    `k`): `Ok` ⇔ the whole header lies in front of both the failure position and the end of the
+    data. -/
+theorem skip_header_extension_ok_iff (data : Bytes) (k nh : Nat) (kind : Kind)
+    (hk : kindOf nh = some kind) :
+    (∃ n, (skipHeaderExtension { data := data, pos := 0, failAt := some k } nh).2 = .ok n) ↔
+      hdrLen kind data 0 ≤ k ∧ hdrLen kind data 0 ≤ data.length := by
+  have hl : Reader.limit { data := data, pos := 0, failAt := some k } = min k data.length := rfl
+  constructor
+  · rintro ⟨n, hn⟩
+    by_cases hfit : 0 + hdrLen kind data 0 ≤ min k data.length
+    · omega
+    · have := (skip_err { data := data, pos := 0, failAt := some k } nh kind hk
+        (by rw [hl]; exact hfit)).1
+      rw [this] at hn; cases hn
+  · intro h
+    have := skip_ok { data := data, pos := 0, failAt := some k } nh kind hk
+      (by rw [hl]; show 0 + hdrLen kind data 0 ≤ min k data.length; omega)
+    exact ⟨_, by rw [this]⟩
+
+/-- `is_skippable_header_extension` and the arms of `skip_header_extension` name the same ip
+    numbers (otherwise the loop of `skip_all_header_extensions` would spin on a header it
+    considers skippable but does not skip). -/
+theorem skippable_arms_agree (nh : Nat) : isSkippable nh ↔ ∃ kind, kindOf nh = some kind :=
+  isSkippable_iff nh
+
+/-- **`Ipv6Header::skip_all_header_extensions`**: the loop terminates for every input (`skipAll` is
+    a total function: every successful skip moves the reader forward inside the available bytes),
+    and `Ok(f)` means: a chain of skippable extension headers, every one completely inside the
+    bytes the reader can hand out, leads from the start position to a header `f` that is not a
+    skippable extension header; the reader then stands exactly behind the last of them (start +
+    the sum of the header lengths), never behind the available bytes. -/
+theorem skip_all_ok (r : Reader) (nh f : Nat) (h : (skipAll r nh).2 = .ok f) :
+    Chain r.data r.limit nh r.pos f (skipAll r nh).1.pos ∧ ¬ isSkippable f ∧
+    r.pos ≤ (skipAll r nh).1.pos ∧ (r.pos ≤ r.limit → (skipAll r nh).1.pos ≤ r.limit) ∧
+    (skipAll r nh).1.data = r.data ∧ (skipAll r nh).1.failAt = r.failAt := by
+  obtain ⟨hc, hd, hf⟩ := (skipAll_spec r nh).1 f h
+  exact ⟨hc, hc.bounds.2.2, hc.bounds.1, hc.bounds.2.1, hd, hf⟩
+
+/-- conversely, every such chain is skipped completely, with exactly this result. -/
+theorem skip_all_complete (data : Bytes) (failAt : Option Nat) (nh pos f p : Nat)
+    (h : Chain data (Reader.limit { data := data, pos := pos, failAt := failAt }) nh pos f p) :
+    skipAll { data := data, pos := pos, failAt := failAt } nh =
+      ({ data := data, pos := p, failAt := failAt }, .ok f) :=
+  skipAll_of_chain data failAt nh pos f p h
+
+/-- an error of the loop is the error of the reader: injected when the reader fails inside the
+    data, `UnexpectedEof` when the data ends; and it is returned exactly when no chain of complete
+    headers exists (some header of the chain is cut). -/
+theorem skip_all_error (r : Reader) (nh : Nat) :
+    (∀ e, (skipAll r nh).2 = .error e → e = r.dryError) ∧
+    ((∃ e, (skipAll r nh).2 = .error e) ↔ ¬ ∃ f p, Chain r.data r.limit nh r.pos f p) := by
+  refine ⟨(skipAll_spec r nh).2, ?_⟩
+  constructor
+  · rintro ⟨e, he⟩ ⟨f, p, hc⟩
+    have := skipAll_of_chain r.data r.failAt nh r.pos f p hc
+    have hr : ({ data := r.data, pos := r.pos, failAt := r.failAt } : Reader) = r := rfl
+    rw [hr] at this
+    rw [this] at he; cases he
+  · intro hno
+    cases hres : (skipAll r nh).2 with
+    | error e => exact ⟨e, rfl⟩
+    | ok f => exact absurd ⟨f, _, (skip_all_ok r nh f hres).1⟩ hno
+
+end skip
+
+/-! ## PacketBuilder, every path (general builder model of C10) -/
+
+section gbuilder
+open EpModel.Builder
+
+/-- **space errors state the length really required — for every builder configuration.**
+    `write_to_slice` returns `Space(r)` exactly when the slice is shorter than `size`, `r` is then
+    `size`, and `size` is the number of bytes a successful `write` produces; a slice of at least
+    `size` bytes never gives a space error, and `Ok(n)` means `n = size` bytes, the same as
+    `write` emits, were written and fit the slice. -/
+theorem gbuilder_space_required (c : Cfg) (p : Bytes) (cap : Nat) (wf : c.WF) :
+    (cap < size c p.length → writeToSlice c cap p = .space (size c p.length)) ∧
+    (∀ r, writeToSlice c cap p = .space r → cap < size c p.length ∧ r = size c p.length) ∧
+    (∀ out, build c p = .ok out → out.length = size c p.length) ∧
+    (∀ n out, writeToSlice c cap p = .ok n out →
+      n = size c p.length ∧ out.length = n ∧ n ≤ cap ∧ build c p = .ok out) := by
+  have hs := C10.slice_agrees c p cap wf
+  refine ⟨fun h => by rw [hs, if_pos h], fun r hr => ?_, fun out h => C10.build_size c p out wf h,
+    fun n out hn => ?_⟩
+  · rw [hs] at hr
+    split at hr
+    · rename_i hlt
+      simp only [SliceRes.space.injEq] at hr
+      exact ⟨hlt, hr.symm⟩
+    · split at hr <;> cases hr
+  · rw [hs] at hn
+    split at hn
+    · cases hn
+    · rename_i hge
+      split at hn
+      · rename_i out' hb
+        simp only [SliceRes.ok.injEq] at hn
+        obtain ⟨h1, h2⟩ := hn
+        subst h1; subst h2
+        exact ⟨rfl, C10.build_size c p _ wf hb, by omega, hb⟩
+      · cases hn
+
+/-- the buffer after `write_to_slice` (`sliceBuffer`): a slice that is too short is left
+    untouched; otherwise the complete packet is in front, everything behind it is untouched and
+    the buffer keeps its length. -/
+theorem gbuilder_slice_buffer (c : Cfg) (p : Bytes) (cap : Nat) (fill : UInt8) (wf : c.WF) :
+    (cap < size c p.length → sliceBuffer c cap p fill = List.replicate cap fill) ∧
+    (∀ out, size c p.length ≤ cap → build c p = .ok out →
+      sliceBuffer c cap p fill = out ++ List.replicate (cap - size c p.length) fill ∧
+      (sliceBuffer c cap p fill).length = cap) := by
+  have hs := C10.slice_agrees c p cap wf
+  refine ⟨fun h => ?_, fun out hge hb => ?_⟩
+  · unfold sliceBuffer; rw [hs, if_pos h]
+  · have hl := C10.build_size c p out wf hb
+    have hc : complete c p = out := by unfold complete; rw [hb]
+    unfold sliceBuffer
+    rw [hs, if_neg (by omega), hb]
+    simp only [hc, hl, List.length_append, List.length_replicate, true_and]
+    omega
+
+/-- **`write` of every builder path against a writer that fails at byte `k`**, for EVERY way the
+    code may cut its output into `write_all` calls (`parts.flatten = complete c p`): the writer has
+    received exactly the first `k` bytes of the complete output; below the complete length the
+    result is the injected I/O error — never `Ok`, never one of the builder's own errors — and
+    from the complete length on it is the builder's own result. -/
+theorem gbuilder_failing_writer (c : Cfg) (p : Bytes) (k : Nat) (parts : List Bytes)
+    (hp : parts.flatten = complete c p) :
+    ((serOf c p parts).run (Writer.failingAt k)).1.out = (complete c p).take k ∧
+    (k < (complete c p).length →
+      ((serOf c p parts).run (Writer.failingAt k)).2 = .error (.io .injected)) ∧
+    ((complete c p).length ≤ k →
+      ((serOf c p parts).run (Writer.failingAt k)).2 =
+        (match build c p with
+         | .ok _ => .ok ()
+         | .error f => .error (.content f.err))) := by
+  have h := failing_writer_ser (serOf c p parts) k
+  have hf : (serOf c p parts).full = complete c p := hp
+  rw [hf] at h
+  refine ⟨h.1, h.2.1, fun hk => ?_⟩
+  rw [h.2.2 hk]
+  simp only [serOf, ownResult]
+  cases build c p <;> rfl
+
+/-- what the driver runs (`writeFailing`, the one-part cut) is an instance of it. -/
+theorem gbuilder_write_failing (c : Cfg) (p : Bytes) (k : Nat) :
+    (writeFailing c p k).1.out = (complete c p).take k ∧
+    (k < (complete c p).length → (writeFailing c p k).2 = .error (.io .injected)) ∧
+    ((complete c p).length ≤ k →
+      (writeFailing c p k).2 =
+        (match build c p with
+         | .ok _ => .ok ()
+         | .error f => .error (.content f.err))) :=
+  gbuilder_failing_writer c p k [complete c p] (by simp)
+
+/-- for an encodable configuration the failing-writer run succeeds exactly when the writer accepts
+    `size` bytes: `Ok` ⇔ `size ≤ k`, and what arrived is the first `min k size` bytes of the
+    packet. -/
+theorem gbuilder_write_failing_ok_iff (c : Cfg) (p : Bytes) (k : Nat) (wf : c.WF)
+    (enc : Encodable c p.length) :
+    ((writeFailing c p k).2 = .ok () ↔ size c p.length ≤ k) ∧
+    (writeFailing c p k).1.out.length = min k (size c p.length) := by
+  have hb := C10.build_accepts c p wf enc
+  have hl := C10.build_size c p _ wf hb
+  have hc : complete c p = Lemmas.Builder.buildOk c p := by unfold complete; rw [hb]
+  obtain ⟨h1, h2, h3⟩ := gbuilder_write_failing c p k
+  rw [hc] at h1 h2 h3
+  rw [hl] at h2 h3
+  refine ⟨⟨fun h => ?_, fun h => ?_⟩, ?_⟩
+  · by_cases hk : k < size c p.length
+    · rw [h2 hk] at h; cases h
+    · omega
+  · rw [h3 h, hb]
+  · rw [h1, List.length_take, hl]
+
+end gbuilder
+
 /-! ## non-vacuity -/
 
 open EpModel.CodecNet in
@@ -636,5 +850,48 @@ def sampleSession : Limited × Except LErr Bytes :=
 example : sampleSession.1.inner.pos = 2 ∧ sampleSession.1.maxLen = 4 := by decide
 example : sampleSession.2 =
     .error (.len { required := 5, len := 4, src := "Slice", layer := "IpAuthHeader", off := 5 }) := rfl
+
+-- skipping extension headers: the arms, the header lengths, a chain hop-by-hop → fragment → UDP
+-- that is skipped completely, and a fragment header that is cut by the failure position / by the
+-- end of the data (the error is returned although every seek "succeeds")
+section
+open EpModel.Io.Skip EpModel.Lemmas.IoSkip
+
+def sampleChain : Bytes := [44, 0, 1, 2, 3, 4, 5, 6, 17, 9, 0, 0, 0, 0, 0, 1, 0xde, 0xad]
+
+example : kindOf 0 = some .generic ∧ kindOf 44 = some .frag ∧ kindOf 51 = some .auth ∧
+    kindOf 17 = none := by decide
+example : isSkippable 140 ∧ ¬ isSkippable 50 ∧ ¬ isSkippable 59 := by decide
+example : hdrLen .generic sampleChain 0 = 8 ∧ hdrLen .auth [6, 3] 0 = 20 ∧
+    hdrLen .generic [6, 255] 0 = 2048 := by decide
+
+theorem sampleChain_chain : Chain sampleChain 16 0 0 17 16 :=
+  Chain.step (kind := .generic) rfl (by decide)
+    (Chain.step (kind := .frag) rfl (by decide) (Chain.stop (by decide)))
+
+example : skipAll { data := sampleChain, pos := 0, failAt := some 16 } 0 =
+    ({ data := sampleChain, pos := 16, failAt := some 16 }, .ok 17) :=
+  skip_all_complete sampleChain (some 16) 0 0 17 16 sampleChain_chain
+
+example : (skipHeaderExtension { data := sampleChain, pos := 8, failAt := some 15 } 44).2 =
+    .error .injected := rfl
+example : (skipHeaderExtension { data := sampleChain.take 15, pos := 8, failAt := some 16 } 44).2 =
+    .error .unexpectedEof := rfl
+example : (skipHeaderExtension { data := sampleChain, pos := 8, failAt := some 16 } 44) =
+    ({ data := sampleChain, pos := 16, failAt := some 16 }, .ok 17) := rfl
+end
+
+-- the general builder: configurations of C10 satisfy the hypotheses (`ip(..)` with IPv4 options and
+-- an authentication header, raw final step), the announced size counts the options
+section
+open EpModel.Builder
+
+def sampleCfg : Cfg :=
+  { link := Step.ethernet2 [1, 2, 3, 4, 5, 6] [7, 8, 9, 10, 11, 12], vlan := Step.singleVlan 5,
+    net := .ipv4 sampleIpv4 { auth := some sampleAuth }, tp := none, last := 253 }
+
+example : sampleCfg.WF ∧ Encodable sampleCfg 6 ∧ size sampleCfg 6 = 14 + 4 + 24 + 16 + 6 := by decide
+example : C10.exCfg.WF ∧ Encodable C10.exCfg 8 ∧ C10.exCfg6.WF ∧ Encodable C10.exCfg6 8 := by decide
+end
 
 end EpModel.Props.C16
